@@ -20,6 +20,8 @@ import Qfx.Drv.Crash
 import Qfx.Drv.CrashMon
 import Qfx.Drv.Conc
 import Qfx.Drv.ConcMon
+import Qfx.Drv.Codec
+import Qfx.Drv.CodecMon
 namespace Qfx.Drv
 
 def families : List (String × Family) :=
@@ -34,6 +36,7 @@ def families : List (String × Family) :=
   , ("store", storeFamily), ("store-mon", storeMonFamily)
   , ("crash", crashFamily), ("crash-mon", crashMonFamily)
   , ("conc", concFamily), ("conc-mon", concMonFamily)
+  , ("codec", codecFamily), ("codec-mon", codecMonFamily)
   ]
 
 end Qfx.Drv
